@@ -5,9 +5,9 @@ verbs = [("Panic","PanicLevel"),("Fatal","FatalLevel"),("Error","ErrorLevel"),("
 out = []
 def block(name, recv, sev, callee, callee_assert, const_sev=True):
     ent = "s" if recv == "s" else "specDefaultEntry()"
-    req = "s != nil" if recv == "s" else "specDefaultEntry() != nil"
+    req = "s != nil && specFmtInv(s)" if recv == "s" else "specDefaultEntry() != nil && specFmtInv(specDefaultEntry())"
     lv = f"{ent}.level"
-    b = [f"//@ func {name}", "//@   props C01 C12", f"//@   requires {req}", "//@   assigns everything"]
+    b = [f"//@ func {name}", "//@   props C01 C02 C12 C13", f"//@   requires {req}", "//@   assigns everything", "//@   keeps PrintCtx.off, PrintCtx.lvl"]
     term = f"specAdmits({lv}, {sev}) && specInterrupts() && isnil({ent}.handlerOpt)"
     if const_sev:
         if sev == "PanicLevel":
@@ -17,6 +17,20 @@ def block(name, recv, sev, callee, callee_assert, const_sev=True):
     else:
         b.append(f"//@   panics [C12.panic] when {sev} == PanicLevel && {term}")
         b.append(f"//@   exits [C12.exit] when {sev} == FatalLevel && {term}")
+    dw = "forall(k, 0, len(specDest(ENT, LVL)), !isnil(specDest(ENT, LVL)[k]) && !typeis(specDest(ENT, LVL)[k], LWs) && implies(typeis(specDest(ENT, LVL)[k], *logwr), dyn(specDest(ENT, LVL)[k], *logwr) != nil && !typeis(dyn(specDest(ENT, LVL)[k], *logwr).Writer, *logwr) && !typeis(dyn(specDest(ENT, LVL)[k], *logwr).Writer, LWs)))".replace("ENT", ent)
+    adm = f"old(specAdmits({lv}, {sev}))"
+    nh = f"isnil(old({ent}.handlerOpt))"
+    b += ["//@   requires defaultWriter != nil && ghost.trN >= 0",
+          "//@   requires [INV-dw] " + dw.replace("LVL", sev),
+          "//@   requires [INV-dw.warn] " + dw.replace("LVL", "WarnLevel"),
+          f"//@   ensures [C02.silent] implies(!{adm}, ghost.trN == old(ghost.trN) && ghost.records == old(ghost.records) && ghost.warns == old(ghost.warns))",
+          "//@   ensures [C02.appendonly] ghost.trN >= old(ghost.trN) && forall(k, 0, old(ghost.trN), ghost.trace[k] == old(ghost.trace[k]) && ghost.trTold[k] == old(ghost.trTold[k]))",
+          f"//@   ensures [C02.handler] implies(!{nh}, ghost.trN == old(ghost.trN) && ghost.records == old(ghost.records) && ghost.warns == old(ghost.warns))",
+          f"//@   ensures [C13.algebra] implies({nh} && {adm}, ghost.records - old(ghost.records) == 1 + ite(old(specAdmits({lv}, WarnLevel)), ghost.warns - old(ghost.warns), 0)) && ghost.warns >= old(ghost.warns) && ghost.warns <= old(ghost.warns) + 1",
+          f"//@   ensures [C13.nocascade] implies({sev} == WarnLevel, ghost.warns == old(ghost.warns))",
+          f"//@   ensures [C02.deliver] implies({nh} && {adm}, ghost.trN >= old(ghost.trN) + old(len(specDest({ent}, {sev}))))",
+          f"//@   ensures [C13.quiet] implies({nh} && {adm} && ghost.warns == old(ghost.warns), ghost.trN == old(ghost.trN) + old(len(specDest({ent}, {sev}))))",
+          "//@   ensures [C12.flags] flags == old(flags) && inTesting == old(inTesting)"]
     b += [f"//@   ensures [C01.gate] implies(!old(specAdmits({lv}, {sev})), ghost.emits == old(ghost.emits))",
           f"//@   ensures [C01.emit] implies(old(specAdmits({lv}, {sev})), ghost.emits > old(ghost.emits))",
           f"//@   at call {callee} assert [C01.sev] {callee_assert}", "//@"]
